@@ -28,8 +28,10 @@ WANTED = [("sbdfstring.c", "sbdf_convert_utf8_to_iso88591"), ("sbdfstring.c", "s
           ("internals.c", "sbdf_read_int8"), ("internals.c", "sbdf_write_int8"),
           ("fileheader.c", "sbdf_sec_write"), ("fileheader.c", "sbdf_sec_read"), ("fileheader.c", "sbdf_sec_expect"),
           ("fileheader.c", "sbdf_fh_write_cur"), ("fileheader.c", "sbdf_fh_read"),
-          ("valuetype.c", "sbdf_vt_write"), ("valuetype.c", "sbdf_vt_read")]
-CALLABLE = set(w[1] for w in WANTED if len(w) == 2)
+          ("valuetype.c", "sbdf_vt_write"), ("valuetype.c", "sbdf_vt_read"),
+          # 32-bit integers in the default (little-endian) configuration: four bytes, then sbdf_swap (a no-op there)
+          ("internals.c", "sbdf_read_int32"), ("internals.c", "sbdf_write_int32")]
+CALLABLE = set(w[1] for w in WANTED if len(w) == 2) | {"sbdf_swap"}
 
 
 class Untranslatable(Exception):
@@ -177,11 +179,21 @@ def expr(n, scope):
                 if x.get("kind") == "IntegerLiteral": return int(x["value"])
                 if x.get("kind") == "UnaryExprOrTypeTraitExpr" and x.get("name") == "sizeof":
                     t = x.get("argType", {}).get("qualType") or (qt(unparen(x["inner"][0])) if x.get("inner") else "")
-                    return 1 if t in ("char", "unsigned char", "signed char") else None
+                    return 1 if t in ("char", "unsigned char", "signed char") else 4 if t in ("int", "unsigned int") else None
                 return None
-            while a0.get("kind") in ("ImplicitCastExpr", "CStyleCastExpr") and a0.get("castKind") in ("BitCast", "NoOp"): a0 = unparen(a0["inner"][0])
+            while a0.get("kind") in ("ImplicitCastExpr", "CStyleCastExpr") and a0.get("castKind") in ("BitCast", "NoOp", "LValueToRValue"): a0 = unparen(a0["inner"][0])
             while a3.get("kind") == "ImplicitCastExpr": a3 = unparen(a3["inner"][0])
             fparam = a3.get("kind") == "DeclRefExpr" and a3.get("referencedDecl", {}).get("kind") == "ParmVarDecl" and "FILE" in qt(a3)
+            if const_of(a1) == 4 and const_of(a2) == 1 and fparam:
+                # one int: fread(p, sizeof(int), 1, f) with p an int* parameter / fwrite(&v, sizeof(int), 1, f) with v an int variable
+                if cname == "fread" and a0.get("kind") == "DeclRefExpr" and a0.get("referencedDecl", {}).get("kind") == "ParmVarDecl" and qt(a0).replace(" ", "") == "int*":
+                    nm = "*" + a0["referencedDecl"]["name"]; OUTPARAMS.add(nm)
+                    f = Fx(); f.io = True; f.w.add(nm); return '(EReadInt32 "%s")' % nm, f
+                if cname == "fwrite" and a0.get("kind") == "UnaryOperator" and a0.get("opcode") == "&":
+                    v = var_of(a0["inner"][0], scope)
+                    if v is not None and qt(unparen(a0["inner"][0])) == "int":
+                        f = Fx(); f.io = True; f.r.add(v); return '(EWriteInt32 (EVar "%s"))' % v, f
+                raise Untranslatable(cname + " of an int in an unsupported form")
             if not (a0.get("kind") == "UnaryOperator" and a0.get("opcode") == "&" and const_of(a1) == 1 and const_of(a2) == 1 and fparam):
                 raise Untranslatable(cname + " other than (&x, 1, 1, f)")
             v = var_of(a0["inner"][0], scope)
@@ -446,7 +458,7 @@ def main():
     # the function table for calls between translated functions (by C name)
     lines.append("Definition prog_env (g : string) : option func :=")
     for fn, pname in translated:
-        if fn in CALLABLE and pname == "prog_" + fn:
+        if fn in CALLABLE and (pname == "prog_" + fn or pname == "prog_sbdf_swap_le"):     # sbdf_swap: the default configuration's
             lines.append('  if String.eqb g "%s" then Some %s else' % (fn, pname))
     lines.append("  None.")
     lines.append("")
